@@ -26,6 +26,13 @@ for d in seeded/*/; do
   done
   [ $ok -eq 1 ] && echo "caught seed $n by $ids"
 done
+# (3) behaviour-preserving changes (neutral/*.diff: refactors written by independent sub-agents and neutral
+# twins of seeded changes) must leave EVERY check silent. Skipped with NEUTRAL=0.
+if [ "${NEUTRAL:-1}" = "1" ]; then
+  for d in neutral/*.diff; do
+    if MAXLINES=2 scripts/try_refactor.sh $d >/tmp/selftest.m.out 2>&1; then echo "silent $(basename $d)"; else echo "FALSE ALARM on $(basename $d)"; grep -E "^(ALARM|VIOLATED|UNDECIDED|FATAL|PATCH)" /tmp/selftest.m.out | cut -c1-200; fail=1; fi
+  done
+fi
 rm -f /tmp/selftest.m.out
 [ $fail -eq 0 ] && echo "SELFTEST OK" || echo "SELFTEST FAILED"
 exit $fail
